@@ -10,6 +10,7 @@
 * encoders for the Coq side (Model/ConcHandlers.v) and the request generators.
 """
 import contextlib
+import glob
 import json
 import multiprocessing
 import os
@@ -229,13 +230,16 @@ def run_stress_threads(world, pre, setup, thread_ops, etags, seed, storage_type=
         threads = [threading.Thread(target=_client, args=(srv, etags, thread_ops[i], seed * 1000 + i, barrier, out, i), daemon=True)
                    for i in range(n)]
         _PERTURB.update(on=True, p=perturb[0], max_us=perturb[1])
+        old_interval = sys.getswitchinterval()
         try:
+            sys.setswitchinterval(2e-5)          # many more thread switches inside the Python code of the server
             for t in threads:
                 t.start()
             for t in threads:
                 t.join(120)
         finally:
             _PERTURB["on"] = False
+            sys.setswitchinterval(old_interval)
         ops = [o for i in range(n) for o in out.get(i, [])]
         store = xh.dump_store(srv.folder, etags)
         return dict(setup=outs, ops=ops, store=store)
@@ -266,7 +270,7 @@ def _proc_main(folder, conf, policy, etags, thread_ops, seed, barrier, conn, per
         conn.close()
 
 
-def run_stress_procs(world, pre, setup, proc_thread_ops, etags, seed, perturb=(0.15, 1200)):
+def run_stress_procs(world, pre, setup, proc_thread_ops, etags, seed, perturb=(0.15, 1200), cache_mode="none"):
     """proc_thread_ops: per process, per thread, list of (ui, request).  Every process has its own Application
     over the SAME storage folder (multifilesystem, flock)."""
     set_policy(world)
@@ -281,8 +285,11 @@ def run_stress_procs(world, pre, setup, proc_thread_ops, etags, seed, perturb=(0
         procs, conns = [], []
         for k, tops in enumerate(proc_thread_ops):
             parent, child = ctx.Pipe(duplex=False)
-            p = ctx.Process(target=_proc_main, args=(folder, conf, dict(xh.POLICY), etags, tops, seed * 100 + k, barrier, child, perturb),
-                            daemon=True)
+            cache = {"none": None, "shared": folder + "-cache", "distinct": folder + "-cache%d" % k}[cache_mode]
+            if cache:
+                os.makedirs(cache, exist_ok=True)
+            p = ctx.Process(target=_proc_main, args=(folder, storage_variant(conf, cache), dict(xh.POLICY), etags, tops, seed * 100 + k,
+                                                     barrier, child, perturb), daemon=True)
             p.start()
             child.close()
             procs.append(p)
@@ -307,6 +314,8 @@ def run_stress_procs(world, pre, setup, proc_thread_ops, etags, seed, perturb=(0
         return dict(setup=outs, ops=ops, store=store, errors=errors)
     finally:
         shutil.rmtree(folder, ignore_errors=True)
+        for d in glob.glob(folder + "-cache*"):
+            shutil.rmtree(d, ignore_errors=True)
 
 
 # ------------------------------------------------------------------------------- generation
@@ -459,3 +468,248 @@ Definition both_ok (c : sched_case) (o : cstore * list cresp * list (option cres
 Definition hist_case := (cworld * list ureq * list op * cstore)%type.
 Definition lin_case (c : hist_case) : N := let '(w, setup, ops, st) := c in lin_verdict w setup ops st 6000.
 """
+
+
+# ------------------------------------------------------------------------------- several server instances, one folder
+def storage_variant(conf, folder_cache):
+    """conf with [storage] filesystem_cache_folder set (None = option not set)."""
+    c = {k: dict(v) for k, v in conf.items()}
+    if folder_cache:
+        c["storage"]["filesystem_cache_folder"] = folder_cache
+    return c
+
+
+_PARK = {"on": False, "ident": None, "inside": None, "resume": None, "holds": None}
+
+
+def _audit_park(event, args):
+    """Parks thread A at its first rename / replace into the collection data (not the cache): it has read the old
+    state and is about to publish the new one, holding the exclusive lock."""
+    if not _PARK["on"] or event != "os.rename" or threading.get_ident() != _PARK["ident"]:
+        return
+    dst = args[1] if len(args) > 1 else None
+    if not isinstance(dst, str) or ".Radicale.cache" in dst or "collection-cache" in dst:
+        return
+    _PARK["on"] = False
+    _PARK["holds"].set()
+    _PARK["inside"].set()
+    _PARK["resume"].wait(30)
+    _PARK["holds"].clear()
+
+
+def run_two_instances(world, pre, setup, req_a, req_b, etags, cache_mode="none", construct_late=False, wait=0.25, park="enter"):
+    """Two Applications over ONE storage folder (multifilesystem: flock), as two server processes would be.
+    Instance 1 serves A; A is parked INSIDE its first exclusive critical section (it holds the storage lock).
+    Then (construct_late: instance 2 is constructed only now -- a worker started while a request is in flight)
+    instance 2 serves B in another thread.  B must not enter any critical section before A has left its own.
+    cache_mode: "none" (option not set), "shared" (one cache folder), "distinct" (one cache folder per instance).
+    -> dict(entered_while_held=[...], resps=[cA, cB], store, errors)"""
+    set_policy(world)
+    folder = tempfile.mkdtemp(prefix="rv-c09-inst-")
+    caches = {"none": (None, None), "shared": (folder + "-cache", folder + "-cache"),
+              "distinct": (folder + "-cache1", folder + "-cache2")}[cache_mode]
+    base = server_conf(world, pre, "multifilesystem")
+    try:
+        for c in set(caches):
+            if c:
+                os.makedirs(c, exist_ok=True)          # the administrator created the (host-local) cache folders
+        srv1 = impl.Server(conf=storage_variant(base, caches[0]), folder=folder)
+        runner = xh.Runner(etags)
+        outs = [runner.one(srv1, ui, r) for ui, r in setup]
+        srv2 = None if construct_late else impl.Server(conf=storage_variant(base, caches[1]), folder=folder)
+        inside = threading.Event()
+        resume = threading.Event()
+        a_holds = threading.Event()
+        events = []
+        res = [None, None]
+        errors = [None, None]
+        ident = {}
+
+        def wrap(srv, who):
+            st = srv.application._storage
+            orig = st.acquire_lock
+
+            @contextlib.contextmanager
+            def wrapped(mode, user="", *a, **k):
+                if ident.get(threading.get_ident()) != who:
+                    with orig(mode, user, *a, **k):
+                        yield
+                    return
+                with orig(mode, user, *a, **k):
+                    events.append((who, "acquired " + mode, a_holds.is_set()))
+                    if park == "enter" and who == "A" and mode == "w" and not inside.is_set():
+                        a_holds.set()
+                        inside.set()
+                        resume.wait(30)
+                        a_holds.clear()
+                    yield
+            st.acquire_lock = wrapped
+
+        def body(k, srv_get, who, q):
+            ident[threading.get_ident()] = who
+            if who == "A" and park == "rename":
+                if not _PARK.get("installed"):
+                    sys.addaudithook(_audit_park)
+                    _PARK["installed"] = True
+                _PARK.update(ident=threading.get_ident(), inside=inside, resume=resume, holds=a_holds, on=True)
+            try:
+                res[k] = xh.Runner(etags).one(srv_get(), q[0], q[1])
+            except BaseException as e:  # noqa
+                errors[k] = repr(e)
+
+        wrap(srv1, "A")
+        ta = threading.Thread(target=body, args=(0, lambda: srv1, "A", req_a), daemon=True)
+        ta.start()
+        parked = inside.wait(1.5)
+        if construct_late:
+            srv2 = impl.Server(conf=storage_variant(base, caches[1]), folder=folder)
+        wrap(srv2, "B")
+        tb = threading.Thread(target=body, args=(1, lambda: srv2, "B", req_b), daemon=True)
+        tb.start()
+        tb.join(wait if parked else 0)
+        b_done_while_held = parked and not tb.is_alive()
+        resume.set()
+        ta.join(30)
+        tb.join(30)
+        _PARK["on"] = False
+        entered = [e for e in events if e[0] == "B" and e[2]]
+        store = xh.dump_store(folder, etags)
+        return dict(setup=outs, resps=res, store=store, errors=errors, parked=parked, events=events,
+                    entered_while_held=entered, b_done_while_held=b_done_while_held)
+    finally:
+        shutil.rmtree(folder, ignore_errors=True)
+        for c in set(caches):
+            if c:
+                shutil.rmtree(c, ignore_errors=True)
+
+
+# ------------------------------------------------------------------------------- concurrent readers on cold caches
+_RDV = {"on": False, "lock": threading.Lock(), "barriers": {}, "timeout": 0.15}
+
+
+def _audit_rendezvous(event, args):
+    """Readers write cache / sync-token files under the SHARED lock.  Two threads about to publish the same cache file
+    (os.replace / os.rename into .Radicale.cache) wait for each other a moment, so that both have their temporary file
+    written before either renames it."""
+    if not _RDV["on"] or event != "os.rename":
+        return
+    n = getattr(_tls, "rdv_left", 0)
+    if n <= 0:
+        return
+    dst = args[1] if len(args) > 1 else None
+    if not isinstance(dst, str) or ".Radicale.cache" not in dst:
+        return
+    _tls.rdv_left = n - 1
+    with _RDV["lock"]:
+        b = _RDV["barriers"].get(dst)
+        if b is None or b.broken:
+            b = _RDV["barriers"][dst] = threading.Barrier(2)
+    try:
+        b.wait(_RDV["timeout"])
+    except threading.BrokenBarrierError:
+        pass
+
+
+class _YieldingBytesIO(__import__("io").BytesIO):
+    """Output buffer that gives other threads a chance at every write (a loaded server)."""
+
+    def write(self, data):
+        time.sleep(0)
+        return super().write(data)
+
+
+class _IoProxy:
+    def __init__(self, real):
+        self._real = real
+        self.BytesIO = _YieldingBytesIO
+
+    def __getattr__(self, name):
+        return getattr(self._real, name)
+
+
+def raw_request(srv, method, path, body, login, depth=None):
+    kw = {}
+    if depth is not None:
+        kw["HTTP_DEPTH"] = depth
+    st, h, b = srv.request(method, path, data=body, login=login, **kw)
+    return st, b
+
+
+SYNC_BODY = ('<?xml version="1.0" encoding="utf-8" ?><sync-collection xmlns="DAV:"><prop><getetag/></prop>'
+             '<sync-token/></sync-collection>').replace("<sync-token/>", "")
+PROPFIND_TOKEN = ('<?xml version="1.0"?><D:propfind xmlns:D="DAV:" xmlns:CS="http://calendarserver.org/ns/"><D:prop>'
+                  '<D:sync-token/><CS:getctag/><D:getetag/></D:prop></D:propfind>')
+QUERY_BODY = ('<?xml version="1.0" encoding="utf-8" ?><C:calendar-query xmlns:D="DAV:" xmlns:C="urn:ietf:params:xml:ns:caldav">'
+              '<D:prop><D:getetag/><C:calendar-data/></D:prop><C:filter><C:comp-filter name="VCALENDAR"/></C:filter></C:calendar-query>')
+
+
+def reader_requests(user):
+    cal = "/%s/cal/" % user
+    return [("REPORT", cal, SYNC_BODY, None), ("PROPFIND", cal, PROPFIND_TOKEN, "1"), ("REPORT", cal, QUERY_BODY, None),
+            ("GET", cal, None, None), ("PROPFIND", "/%s/" % user, PROPFIND_TOKEN, "1")]
+
+
+def run_concurrent_readers(n_items, plan, storage_type="multifilesystem", rounds=1, yielding=True, seed=0):
+    """Two users with a calendar each (n_items events).  plan: list (one per thread) of (user, request index).
+    Each round: the store gets a new state (one more event per user: cold sync-token, cold item cache for it), all
+    threads issue their read-only request at the same time (barrier at the start, rendezvous at the rename that
+    publishes a cache file, yielding response buffers, tiny switch interval); afterwards every request is issued
+    alone: a read-only request has one answer for a given store, the concurrent answers must be that answer.
+    -> list of dict(round, thread, user, request, concurrent=(status, body), alone=(status, body))"""
+    import radicale.app.base as app_base
+    from radicale.app.base import io as real_io
+    install_perturbation()
+    if not _RDV.get("installed"):
+        sys.addaudithook(_audit_rendezvous)
+        _RDV["installed"] = True
+    conf = {"auth": {"type": "none"}, "rights": {"type": "owner_only"}, "storage": {"type": storage_type}}
+    bad = []
+    old_interval = sys.getswitchinterval()
+    with impl.Server(conf=conf) as srv:
+        try:
+            if yielding:
+                app_base.io = _IoProxy(real_io if not isinstance(real_io, _IoProxy) else real_io._real)
+                srv.reconfigure({})            # objects created in __init__ see the perturbed namespace too
+            users = sorted({u for u, _ in plan})
+            for u in users:
+                assert srv.mkcalendar("/%s/cal/" % u, login=u + ":") == 201
+                for i in range(n_items):
+                    assert srv.put("/%s/cal/e%d.ics" % (u, i), impl.event("%s-e%d" % (u, i), "private of " + u), login=u + ":")[0] == 201
+            sys.setswitchinterval(1e-5)
+            for rnd in range(rounds):
+                for u in users:
+                    assert srv.put("/%s/cal/r%d.ics" % (u, rnd), impl.event("%s-r%d" % (u, rnd), "private of " + u), login=u + ":")[0] == 201
+                barrier = threading.Barrier(len(plan))
+                got = [None] * len(plan)
+
+                def body(k, u, q):
+                    _tls.rdv_left = 2
+                    try:
+                        barrier.wait(10)
+                        m, p, b, d = reader_requests(u)[q]
+                        got[k] = raw_request(srv, m, p, b, u + ":", d)
+                    except BaseException as e:  # noqa
+                        got[k] = (599, repr(e).encode())
+                    finally:
+                        _tls.rdv_left = 0
+                _RDV["on"] = True
+                _RDV["barriers"].clear()
+                ths = [threading.Thread(target=body, args=(k, u, q), daemon=True) for k, (u, q) in enumerate(plan)]
+                for t in ths:
+                    t.start()
+                for t in ths:
+                    t.join(30)
+                _RDV["on"] = False
+                for k, (u, q) in enumerate(plan):
+                    m, p, b, d = reader_requests(u)[q]
+                    alone = raw_request(srv, m, p, b, u + ":", d)
+                    if got[k] != alone:
+                        bad.append(dict(round=rnd, thread=k, user=u, request=[m, p, d], concurrent_status=got[k][0] if got[k] else None,
+                                        alone_status=alone[0], concurrent_body=(got[k][1] if got[k] else b"").decode("utf-8", "replace")[:1500],
+                                        alone_body=alone[1].decode("utf-8", "replace")[:1500]))
+        finally:
+            _RDV["on"] = False
+            sys.setswitchinterval(old_interval)
+            if yielding:
+                app_base.io = real_io if not isinstance(real_io, _IoProxy) else real_io._real
+    return bad
